@@ -143,3 +143,35 @@ class _client_enter:
                     self.player is old.self.player, self.team_name == old.self.team_name,
                     self.opponent_team_name is None or
                     same(self.opponent_team_name, old.self.opponent_team_name))
+
+
+# ---- small functions that were outside every unit ---------------------------------------------------
+
+from bridge_env import Bid
+from bridge_env.network_bridge.bidding_system import AlwaysPass
+from bridge_env.playing_phase import PlayingHistory
+from contracts.bidding import BPShape, inv as _bp_inv, is_legal_now as _legal, over as _bp_over
+from pyvc.dsl import Tuple as _Tuple
+
+
+@contract('bridge_env.network_bridge.bidding_system.AlwaysPass.bid', props=['C11'])
+class _always_pass:
+    params = dict(self=Obj(AlwaysPass, {}), hand=_Tuple(*[Int(0, 1) for _ in range(52)]),
+                  bidding_phase=BPShape)
+    returns = Enum(Bid)
+    modifies = []
+
+    def requires_auction_in_progress(bidding_phase):
+        return conj(_bp_inv(bidding_phase), not _bp_over(bidding_phase))
+
+    # the other bundled policy: always the one call that is legal in every position
+    def ensures_a_legal_call(bidding_phase, result):
+        return conj(result is Bid.Pass, _legal(bidding_phase, result))
+
+
+@contract('bridge_env.playing_phase.PlayingHistory.contract', props=['C04', 'C08'])
+class _history_contract:
+    modifies = []
+
+    def ensures_the_contract_played(self, result):
+        return result is self._contract
